@@ -104,6 +104,9 @@ func verifyFunctionOpt(P *Program, fn *ssa.Function, props []string, opt func(*E
 		}
 	}
 	e.rootCt = ct
+	if ct.Exact {
+		e.forceInline = true
+	}
 	e.curProps = ct.Props
 	if len(e.curProps) == 0 {
 		e.curProps = props
